@@ -149,4 +149,59 @@ def mapDense (f : List Char → Except Err (List Char)) : AlnD → Except Err Al
     | .error e, _ => .error e
     | _, .error e => .error e
 
+/-- dense `take_positions(cols, negate=True)` -/
+def denseTakeNeg (s : List Char) (cols : List Int) : List Char :=
+  (s.zipIdx.filter fun p => !cols.contains (p.2 : Int)).map (·.1)
+
+/-! ### operation histories on both classes -/
+
+/-- the operations of a history (on either class) -/
+inductive AOp where
+  | slice (a b : Option Int) | int (i : Int) | rc | takeSeqs (names : List String) (neg : Bool)
+  | takePositions (cols : List Int) (neg : Bool) | toRna | toDna | addSelf | addCopy
+  | keep (locs : List (Int × Int))
+
+/-- one operation on the annotatable class (`dna` tracks DNA vs RNA complementing) -/
+def stepA (dna : Bool) (a : AlnA) : AOp → Except Err (AlnA × Bool)
+  | .slice x y => (mapRows (fun r => rowSlice r x y) a).map (·, dna)
+  | .int i => (mapRows (fun r => rowInt r i) a).map (·, dna)
+  | .rc => (mapRows (rowRc dna) a).map (·, dna)
+  | .takeSeqs ns neg => .ok (takeSeqs a ns neg, dna)
+  | .takePositions cols neg =>
+    (mapRows (fun r => if neg then rowTakePositionsNeg r cols else rowTakePositions r cols) a).map (·, dna)
+  | .toRna => .ok (a.map fun p => (p.1, { p.2 with data := p.2.data.map toRna }), false)
+  | .toDna => .ok (a.map fun p => (p.1, { p.2 with data := p.2.data.map toDna }), true)
+  | .addSelf => .ok (a.map fun p => (p.1, rowAddOther p.2 p.2), dna)
+  | .addCopy => .ok (a.map fun p => (p.1, rowAddOther p.2 (rowOfString (gapped p.2))), dna)
+  | .keep locs => (mapRows (fun r => rowKeep r locs) a).map (·, dna)
+
+/-- the same operation on the dense class = on the plain gapped strings (`none`: not modelled) -/
+def stepD (dna : Bool) (a : AlnD) : AOp → Option (Except Err (AlnD × Bool))
+  | .slice x y => some (.ok (a.map fun p => (p.1, PySlice.slice p.2 x y 1), dna))
+  | .int i => some ((mapDense (fun s => denseTake s [i]) a).map (·, dna))
+  | .rc => some (.ok (a.map fun p => (p.1, p.2.reverse.map (comp dna)), dna))
+  | .takeSeqs ns neg => some (.ok (takeSeqs a ns neg, dna))
+  | .takePositions cols neg =>
+    some ((mapDense (fun s => if neg then .ok (denseTakeNeg s cols) else denseTake s cols) a).map (·, dna))
+  | .toRna => some (.ok (a.map fun p => (p.1, p.2.map toRna), false))
+  | .toDna => some (.ok (a.map fun p => (p.1, p.2.map toDna), true))
+  | .addSelf => some (.ok (a.map fun p => (p.1, p.2 ++ p.2), dna))
+  | .addCopy => some (.ok (a.map fun p => (p.1, p.2 ++ p.2), dna))
+  | .keep _ => none
+
+/-- a whole history on the annotatable class -/
+def runA (dna : Bool) (a : AlnA) : List AOp → Except Err (AlnA × Bool)
+  | [] => .ok (a, dna)
+  | op :: ops => match stepA dna a op with
+    | .ok (a', dna') => runA dna' a' ops
+    | .error e => .error e
+
+/-- the same history on the plain gapped strings -/
+def runD (dna : Bool) (d : AlnD) : List AOp → Option (Except Err (AlnD × Bool))
+  | [] => some (.ok (d, dna))
+  | op :: ops => match stepD dna d op with
+    | some (.ok (d', dna')) => runD dna' d' ops
+    | some (.error e) => some (.error e)
+    | none => none
+
 end CogentModel.Aln
